@@ -1,7 +1,7 @@
 #!/bin/bash
 # Round-3 pipeline for one sub-agent change: confirm it in its scratch worktree (demo passes without / fails with / suite
 # passes with), then run the own + related checks against it in an isolated slot (never /repo).
-# usage: seed_iso.sh <slot> <ID> <V>      appends to /tmp/mut/results5.txt in the format tools/seed_save.py reads
+# usage: seed_iso.sh <slot> <ID> <V>      appends to /tmp/mut/results6.txt in the format tools/seed_save.py reads
 declare -A REL=( [C01]="C05 C06 C07" [C02]="C07 C12 C13" [C03]="C07 C11" [C04]="C08 C13" [C05]="C08 C01" [C06]="C13 C07" [C07]="C02 C03" [C08]="C14 C05 C10" [C09]="C16" [C10]="C11 C14 C08" [C11]="C10 C02 C03" [C12]="C02 C10" [C13]="C08 C04" [C14]="C08 C10 C11" [C15]="C08" [C16]="C09 C17" [C17]="C16" [C18]="C19" [C19]="C18 C11" [C20]="C09" )
 slot=$1; id=$2; v=$3; O=/tmp/mut/$id.out/$v
 [ -f $O/patch.diff ] || { echo "no patch $O"; exit 2; }
@@ -16,5 +16,5 @@ slot=$1; id=$2; v=$3; O=/tmp/mut/$id.out/$v
 c=$(cat $O/confirm.txt)
 [ -d /tmp/mut/iso$slot/repo ] || /verif/tools/iso.sh setup $slot >/dev/null 2>&1
 out=$(/verif/tools/iso.sh run $slot $O/patch.diff $id ${REL[$id]} 2>&1)
-( flock 9; echo "== $id/$v :: $c" >> /tmp/mut/results5.txt; echo "$out" >> /tmp/mut/results5.txt ) 9>/tmp/mut/results.lock
+( flock 9; echo "== $id/$v :: $c" >> /tmp/mut/results6.txt; echo "$out" >> /tmp/mut/results6.txt ) 9>/tmp/mut/results.lock
 echo "== $id/$v :: $c"; echo "$out"
